@@ -81,6 +81,18 @@ theorem isValid_no_oob (mem : List Nat) (len : Nat) (hl : len ≤ mem.length) :
   unfold isValid
   rw [hv]; intro h; cases h
 
+/-- for EVERY byte string `Unicode::isValid` decides exactly the structural well-formedness
+    `Spec.wellFormed` (lead byte class + continuation bytes; the code does not reject over-long forms,
+    surrogates or values above U+10FFFF, and neither does the specification) -/
+theorem isValid_spec (bs : List UInt8) :
+    isValid (bs.map UInt8.toNat) (bs.map UInt8.toNat).length = .ok (Spec.wellFormed (bs.map UInt8.toNat)) := by
+  have hb : ∀ b ∈ bs.map UInt8.toNat, b < 256 := by
+    intro b hb
+    obtain ⟨x, _, rfl⟩ := List.mem_map.mp hb
+    exact x.toNat_lt
+  have := isValidLoop_spec _ hb (bs.map UInt8.toNat).length 0 (bs.map UInt8.toNat).length (by omega) (by omega)
+  simpa [isValid] using this
+
 /- non-vacuity / the model does fault when a read leaves the range -/
 example : fromString [0xE2, 0x82, 0xAC] 3 = .ok 0x20AC := by decide
 example : fromString [0xE2, 0x82] 3 = .oob := by decide          -- a caller lying about the length faults
